@@ -598,9 +598,21 @@ QUICK = {
 }
 
 
+def closed_by_other_thread(sx, op):
+    """exchange() on a frontend that another thread closes in the moment
+    before exchange() gets the frontend lock (harness/c15_lock.py,
+    close_race_scn; recording driver): the documented IOError(ENODEV), never
+    an exception of another type"""
+    from harness import c15_lock
+    return c15_lock.close_race_scn(sx, op)
+
+
 def partitions(tier):
     q = tier == "quick"
     parts = []
+    for op in ("exchange-cmd", "exchange-rsp"):
+        parts.append(dict(name="closed-by-other-thread:" + op, fn="closed_by_other_thread",
+                          params=dict(op=op)))
     for d in PN + ['rcs380']:
         for k in kinds_for(d, tier):
             sel = 'nif'
@@ -650,7 +662,7 @@ def partitions(tier):
     return parts
 
 
-MUST_REACH = ["out:data", "out:TimeoutError", "out:TransmissionError",
+MUST_REACH = ["close-race:exchange-cmd:closed-before-lock", "close-race:exchange-rsp:closed-before-lock", "out:data", "out:TimeoutError", "out:TransmissionError",
               "out:BrokenLinkError", "out:IOError", "fault:w", "fault:a",
               "fault:r", "fault:short", "fault:garble", "fault:err",
               "ioerror-shape:EIO", "ioerror-shape:ENODEV",
